@@ -249,9 +249,8 @@ func samePrio(a, b *h2kit.Prio) bool {
 // written: the HPACK-order finding.
 // room is the stream window the receiver starts a stream with.
 func room(w Win, stream uint32) int {
-	if w.Mode == "early" && stream%2 == 1 {
-		return w.Init + 1<<20
-	}
+	// (also with early credit: the grant races with the peer's first DATA through the
+	// relay, so a stream can be held for a moment at the announced window)
 	return w.Init
 }
 
@@ -372,6 +371,12 @@ func classes(c Case) []string {
 	if c.CWin.Mode == "early" {
 		set["credit-before-first-frame"] = true
 	}
+	if c.CWin.Rep || c.SWin.Rep {
+		set["repeated-settings-identifier"] = true
+	}
+	if c.CWin.Mode == "none" || c.SWin.Mode == "none" {
+		set["no-window-updates-at-all"] = true
+	}
 	for _, f := range all {
 		if f.T == "D" && f.N > 16384 {
 			set["data-frame-above-16384"] = true
@@ -418,7 +423,7 @@ func nontrivial(c Case) bool {
 
 // compare checks one direction. dir is "c2s" or "s2c"; blocked says whether the
 // direction has the headers-behind-blocked-data shape.
-func compare(dir string, want, got *model, wantAcks, gotAcks int, blocked, early bool) kit.Verdict {
+func compare(dir string, want, got *model, wantAcks, gotAcks int, blocked, early, silent bool) kit.Verdict {
 	var v kit.Verdict
 	var ids []uint32
 	seen := map[uint32]bool{}
@@ -497,6 +502,8 @@ func compare(dir string, want, got *model, wantAcks, gotAcks int, blocked, early
 		}
 		if len(g) < len(w) && early && s%2 == 1 {
 			v.Addf("C08/stream-history/"+dir+"-credit-granted-before-first-frame/frames-missing", "%s stream %d (the receiver granted 1 MiB of stream credit right after opening the stream and nothing later): %d of %d items arrived; first missing: %v", dir, s, len(g), len(w), w[len(g)])
+		} else if len(g) < len(w) && silent {
+			v.Addf("C08/stream-history/"+dir+"-window-from-repeated-settings-identifier/frames-missing", "%s stream %d (the receiver announced INITIAL_WINDOW_SIZE twice in one SETTINGS frame, the last value 65 535, and never sends WINDOW_UPDATE): %d of %d items arrived; first missing: %v", dir, s, len(g), len(w), w[len(g)])
 		} else if len(g) < len(w) {
 			v.Addf("C08/stream-history/"+dir+"/frames-missing", "%s stream %d: %d of %d items arrived; first missing: %v", dir, s, len(g), len(w), w[len(g)])
 		}
@@ -562,7 +569,9 @@ func initialSettings(w Win, max, table uint32) []h2kit.Setting {
 	if table != 0 {
 		s = append(s, h2kit.Setting{ID: 1, Val: table})
 	}
-	if w.Init != 65535 {
+	if w.Rep {
+		s = append(s, h2kit.Setting{ID: 4, Val: uint32(w.First)}, h2kit.Setting{ID: 4, Val: uint32(w.Init)})
+	} else if w.Init != 65535 {
 		s = append(s, h2kit.Setting{ID: 4, Val: uint32(w.Init)})
 	}
 	if max != 0 {
@@ -743,6 +752,9 @@ func (r *runner) receive(ep *h2kit.Endpoint, dir string, w Win, want *model, ack
 		}
 	}
 	sort.Slice(ids, func(i, j int) bool { return ids[i] < ids[j] })
+	if w.Mode == "none" {
+		ids = nil // the window announced at the start covers everything
+	}
 	if w.Mode == "step" && len(ids) > 0 {
 		step := w.Step
 		if most/step > 300 {
@@ -761,7 +773,9 @@ func (r *runner) receive(ep *h2kit.Endpoint, dir string, w Win, want *model, ack
 		}
 		ep.WriteWindowUpdate(s, 1<<20)
 	}
-	ep.WriteWindowUpdate(0, 1<<24)
+	if w.Mode != "none" {
+		ep.WriteWindowUpdate(0, 1<<24)
+	}
 	ep.WritePing(false, h2kit.MarkerPing(2))
 	if !r.wait(ep, func(rec *h2kit.Rec) bool { return len(rec.Streams[sentinel]) > 0 || rec.Done }) {
 		r.fail(true, "C08/completeness/"+dir+"/barrier-not-delivered", "%s: the sender's sentinel frame did not arrive within %v", dir, r.bound)
@@ -947,8 +961,8 @@ func runOnce(c Case, bound time.Duration, vr variant) (v kit.Verdict, slow bool)
 	sv.With(func(rec *h2kit.Rec) { gotAtServer, acksAtServer = observed(rec), rec.Acks })
 	cl.With(func(rec *h2kit.Rec) { gotAtClient, acksAtClient = observed(rec), rec.Acks })
 	v = r.v
-	v = append(v, compare("c2s", wantAtServer, gotAtServer, countSettings(server), acksAtServer, blockedShape(c.Client, c.SWin), false)...)
-	v = append(v, compare("s2c", wantAtClient, gotAtClient, countSettings(c.Client), acksAtClient, blockedShape(server, c.CWin), c.CWin.Mode == "early")...)
+	v = append(v, compare("c2s", wantAtServer, gotAtServer, countSettings(server), acksAtServer, blockedShape(c.Client, c.SWin), false, c.SWin.Mode == "none")...)
+	v = append(v, compare("s2c", wantAtClient, gotAtClient, countSettings(c.Client), acksAtClient, blockedShape(server, c.CWin), c.CWin.Mode == "early", c.CWin.Mode == "none")...)
 	return v, r.slow
 }
 
@@ -1051,4 +1065,4 @@ func TestScripts(t *testing.T) {
 	propScripts.Check(t, n)
 }
 
-func TestReplay(t *testing.T) { kit.Replay(t, propScripts, propLargeBlocks) }
+func TestReplay(t *testing.T) { kit.Replay(t, propScripts, propLargeBlocks, propHeld) }
